@@ -16,7 +16,9 @@ META = {
     "level": "exploration",
     "rule": (
         "generated pairs/triples drawn from Perm, MeshPatt, BivincularPatt, VincularPatt, CovincularPatt "
-        "(length <= 3) including twins (one shading reached through different classes), Basis and MeshBasis; "
+        "(length <= 3) including twins (one shading reached through different classes), derived objects (the same "
+        "pattern reached through shade / symmetries / unrank / sub_mesh_pattern / repr on parents that were already "
+        "compared, hashed and sorted), Basis and MeshBasis; "
         "exhaustive: all pairs of mesh-type representations of patterns of length <= 1 and all pairs of "
         "permutations of length <= 4 (5 thorough); hash lifetimes = generated histories of allocations "
         "(lists, other patterns, super() proxies, gc.collect) between two hash computations, then set/dict "
@@ -33,7 +35,43 @@ META = {
 }
 
 
+ROUTES = ("shade_existing", "shade_repeated", "reverse2", "inverse2", "complement2", "rotate4", "unrank", "sub_all", "eval_repr")
+
+
+def _via(j):
+    """A mesh pattern equal to j["base"] but obtained through an operation on a (possibly
+    already compared / hashed / sorted) parent object instead of a constructor."""
+    base = lib.to_lib(j["base"])
+    M = MeshPatt(base.pattern, base.shading) if j.get("plain", True) else base
+    if j.get("warm", True):
+        other = MeshPatt(M.pattern, [])
+        _ = (M < other, M <= other, M > other, M == other, hash(M), sorted([M, other, M]))
+    route = j["route"]
+    cells = sorted(M.shading)
+    if route == "shade_existing":
+        return M.shade(*cells[:1]) if cells else M.shade()
+    if route == "shade_repeated":
+        return M.shade(*(cells[:1] * 2 + cells[-1:])) if cells else M.shade()
+    if route == "reverse2":
+        return M.reverse().reverse()
+    if route == "inverse2":
+        return M.inverse().inverse()
+    if route == "complement2":
+        return M.complement().complement()
+    if route == "rotate4":
+        return M.rotate().rotate(2).rotate()
+    if route == "unrank":
+        return MeshPatt.unrank(M.pattern, M.rank())
+    if route == "sub_all":
+        return M.sub_mesh_pattern(range(len(M)))
+    if route == "eval_repr":
+        return eval(repr(M), {"MeshPatt": MeshPatt, "Perm": Perm})  # pylint: disable=eval-used
+    raise engine.HarnessError(route)
+
+
 def _obj(j):
+    if isinstance(j, dict) and j.get("t") == "via":
+        return _via(j)
     if isinstance(j, dict) and j.get("t") == "basis":
         return Basis(*[Perm(p) for p in j["perms"]])
     if isinstance(j, dict) and j.get("t") == "meshbasis":
@@ -42,6 +80,8 @@ def _obj(j):
 
 
 def _family(j):
+    if isinstance(j, dict) and j.get("t") == "via":
+        return "mesh"
     if isinstance(j, dict) and j.get("t") in ("basis", "meshbasis"):
         return j["t"]
     return "mesh" if lib.is_mesh_json(j) else "perm"
@@ -51,6 +91,12 @@ def _is_meshtype(j):
     return _family(j) == "mesh"
 
 
+def _mesh_ref(j):
+    if isinstance(j, dict) and j.get("t") == "via":
+        return lib.as_mesh_ref(j["base"])  # every route is the identity on (pattern, shading)
+    return lib.as_mesh_ref(j)
+
+
 def _expected_equal(ja, jb):
     fa, fb = _family(ja), _family(jb)
     if fa != fb:
@@ -58,7 +104,7 @@ def _expected_equal(ja, jb):
     if fa == "perm":
         return list(ja) == list(jb)
     if fa == "mesh":
-        return lib.to_ref(ja) == lib.to_ref(jb)
+        return _mesh_ref(ja) == _mesh_ref(jb)
     return None
 
 
@@ -212,7 +258,17 @@ def any_object(draw):
 
 @st.composite
 def tuple_cases(draw):
-    mode = draw(st.sampled_from(["any", "twins", "mesh_only", "perms", "same_pattern"]))
+    mode = draw(st.sampled_from(["any", "twins", "mesh_only", "perms", "same_pattern", "derived", "derived"]))
+    if mode == "derived":
+        # the same mesh pattern reached through operations on (warmed) parents, next to its
+        # plain twin and to a neighbour on the same underlying pattern
+        base = draw(gen.mesh_patterns(0, 3))
+        out = [{"t": "via", "base": base, "route": draw(st.sampled_from(ROUTES)), "warm": draw(st.booleans())}, base]
+        if draw(st.booleans()):
+            out.append([base[0], draw(gen.shadings(len(base[0])))])
+        else:
+            out.append({"t": "via", "base": base, "route": draw(st.sampled_from(ROUTES)), "warm": True})
+        return out
     n = draw(st.integers(2, 3))
     if mode == "any":
         return [draw(any_object()) for _ in range(n)]
